@@ -79,8 +79,13 @@ def c14(tier, seed, replay_path=None):
         so, se = pr.communicate(timeout=3400)
         if pr.returncode != 0 or not os.path.exists(os.path.join(sd, "res")):
             # a crash of the decoder outside the watchdog (e.g. fatal error: out of memory) is an observation about the code
-            if "fatal error" in se or "panic:" in se:
-                return {"violations": [("wire decoder crashed the process: %s" % se[-600:], {"family": "wire", "stderr": se[-3000:]})], "known": [], "notes": [],
+            # - but only when the failing goroutine was inside the codec (or the runtime ran out of memory): a panic of the
+            # harness itself is a harness failure
+            i = max(se.find("fatal error"), se.find("panic:"))
+            first_stack = se[i:].split("\n\ngoroutine", 2)[0] + se[i:].split("\n\n", 2)[1] if i >= 0 and "\n\n" in se[i:] else se[i:]
+            in_codec = "internal/wire." in first_stack.split("verifh/chain.opWire")[0] or "out of memory" in se[i:i + 300]
+            if i >= 0 and in_codec:
+                return {"violations": [("wire decoder crashed the process: %s" % se[i:i + 600], {"family": "wire", "stderr": se[i:i + 3000]})], "known": [], "notes": [],
                         "level": "exploration", "coverage": {"evaluations": 1, "distinct_nontrivial": 2, "rule": "crash", "samples": ["crash"]}, "assumptions": []}
             raise c.Infra("wire harness failed: %s" % se[-1500:])
         res = json.load(open(os.path.join(sd, "res")))
